@@ -179,7 +179,8 @@ func QuicstreamHandlerRequestProposal(
 
 	return boolEncodeQUICstreamHandler(
 		func(header RequestProposalRequestHeader) string {
-			return HandlerNameRequestProposal.String() + header.Point().String() + header.Proposer().String()
+			return HandlerNameRequestProposal.String() + header.Point().String() + header.Proposer().String() +
+				header.PreviousBlock().String()
 		},
 		func(ctx context.Context, header RequestProposalRequestHeader, _ encoder.Encoder) (interface{}, bool, error) {
 			pr, err := getOrCreateProposal(ctx, header)
